@@ -190,15 +190,25 @@ def discharge(obls, timeout_ms=10000, external=True):
         quant = has_quantifier(list(o.assumptions) + [o.goal])
         r.solver = 'z3-5.1.0'
         done = False
-        first_to = timeout_ms if not quant else min(timeout_ms, 1500)
-        s, res, reason = solve(o.assumptions, z3.Not(o.goal), first_to)
-        if res == z3.unsat:
-            r.status = 'unsat'
-            done = True
-        elif res == z3.sat:
-            r.status = 'sat'
-            r.model = model_to_dict(s.model())
-            done = True
+        res = z3.unknown
+        reason = ''
+        if quant and not INST.contains_quant(o.goal):
+            # stage 0: the quantifier-free part of the hypotheses alone (most safety obligations)
+            s0, res0, reason0 = solve(INST.drop_quantified(o.assumptions), z3.Not(o.goal), 1000)
+            if res0 == z3.unsat:
+                r.status = 'unsat'
+                r.solver = 'z3-5.1.0+qf'
+                done = True
+        if not done:
+            first_to = timeout_ms if not quant else min(timeout_ms, 1500)
+            s, res, reason = solve(o.assumptions, z3.Not(o.goal), first_to)
+            if res == z3.unsat:
+                r.status = 'unsat'
+                done = True
+            elif res == z3.sat:
+                r.status = 'sat'
+                r.model = model_to_dict(s.model())
+                done = True
         if quant and not done:
             # stage A: skolemised goal, ground instances only (quantifier-free; sound for proving)
             try:
@@ -212,9 +222,9 @@ def discharge(obls, timeout_ms=10000, external=True):
                     qf = INST.drop_quantified(asm)
                     res2 = z3.unknown
                     # progressively wider candidate sets: skolem-derived terms, then index terms / constants, then all
-                    for maxrank in (0, 1, 9):
+                    for maxrank, to in ((0, 2000), (1, min(timeout_ms, 6000)), (9, timeout_ms)):
                         insts = INST.instantiate(asm, [g] + list(extra), maxrank=maxrank)
-                        s2, res2, reason2 = solve(qf + insts, z3.Not(g), timeout_ms)
+                        s2, res2, reason2 = solve(qf + insts, z3.Not(g), to)
                         if res2 == z3.unsat:
                             break
                     if res2 != z3.unsat:
@@ -230,7 +240,7 @@ def discharge(obls, timeout_ms=10000, external=True):
             if True:
                 r.status = 'unknown'
                 r.reason = reason
-                if quant:
+                if quant and timeout_ms > 10000:
                     # stage C: instances + quantified hypotheses, then the other solvers on that query
                     try:
                         pairs = INST.flatten(o.goal)
